@@ -72,8 +72,9 @@ func build() *scen {
 	s.w = w
 	a, b := mkPlan("a", 100, 1000), mkPlan("b", 200, 2000)
 	s.plans["a"], s.plans["b"] = a, b
-	w.StdFixture(chain.StdOpts{Specs: []string{"mock"}, Providers: 2, Consumers: 0, Plan: &a})
-	w.Must("add plan B", w.AddPlanGov(false, b))
+	// both plans come from one governance proposal, i.e. their first versions share a block (later versions, added by
+	// the plan-add operations, do not)
+	w.StdFixture(chain.StdOpts{Specs: []string{"mock"}, Providers: 2, Consumers: 0, Plan: &a, ExtraPlans: []planstypes.Plan{b}})
 	s.cons, _ = w.AddAccount(common.CONSUMER, 0, 10000000)
 	if p := w.AdvanceToNextEpoch(chain.BlockDt); p != "" {
 		panic("fixture: " + p)
